@@ -5,7 +5,7 @@
    parse_ip (net.ParseIP as a predicate) and resolve (net.ResolveIPAddr) are universally quantified, so
    names, IPv4/IPv6 literals, zoned and IPv4-mapped literals are all covered.  ifaces: the interface
    subnets of the machine at load time (external). *)
-From CJ Require Import Common.Base C19.ModelEnforce C19.ProofsEnforce C19.ProofsRegex.
+From CJ Require Import Common.Base C19.ModelEnforce C19.ProofsEnforce C19.ProofsRegex C19.ProofsStrings.
 
 (* an accepted configuration's policy is, list by list and in order, exactly the written entries (the
    interface subnets behind the written blocklist when covert_blocklist_public_addrs is on): none dropped,
@@ -113,3 +113,46 @@ Theorem C19_names_only_variant_differs_only_on_matched_literals :
     decide_names_only parse_ip resolve p s = decide parse_ip resolve p s.
 Proof. exact names_only_agrees. Qed.
 Print Assumptions C19_names_only_variant_differs_only_on_matched_literals.
+
+(* net.SplitHostPort on the two shapes of a well-formed covert string: "host:port" (names, IPv4 literals) and
+   "[host]:port" (IPv6 literals: the host may contain colons, a zone, an embedded IPv4 address) -- the host
+   text the patterns see is the text between the brackets *)
+Theorem C19_split_host_port_shapes :
+  forall host port : list N,
+    (clean host -> clean port -> split_host_port (host ++ c_colon :: port) = Some (host, port)) /\
+    (has_byte c_lbr host = false -> has_byte c_rbr host = false -> clean port ->
+       split_host_port (c_lbr :: host ++ c_rbr :: c_colon :: port) = Some (host, port)).
+Proof. intros host port. split; [exact (split_plain host port)|exact (split_bracketed host port)]. Qed.
+Print Assumptions C19_split_host_port_shapes.
+
+(* ... so the pattern theorem holds of the covert STRINGS: a written pattern that matches the host text
+   refuses "host:port" and "[host]:port", whatever parse_ip and resolve say about that text *)
+Theorem C19_pattern_entry_enforced_on_covert_strings :
+  forall parse_ip resolve ifaces l p pat (host port : list N),
+    load ifaces (ELists l) = Some p -> In (POk pat) (l_domains l) -> pat_match pat host = true -> clean port ->
+    (clean host -> decide parse_ip resolve p (host ++ c_colon :: port) = false) /\
+    (has_byte c_lbr host = false -> has_byte c_rbr host = false ->
+       decide parse_ip resolve p (c_lbr :: host ++ c_rbr :: c_colon :: port) = false).
+Proof. exact pattern_enforced_on_strings. Qed.
+Print Assumptions C19_pattern_entry_enforced_on_covert_strings.
+
+(* an entry is enforced wherever it stands: the decision depends on which entries the lists contain, not on
+   their order or multiplicity (the class of seeded change C19a: "only the last entry counts") *)
+Theorem C19_entry_position_irrelevant :
+  forall parse_ip resolve p p' s,
+    (forall x, In x (e_domains p) <-> In x (e_domains p')) ->
+    (forall n, In n (e_block p) <-> In n (e_block p')) ->
+    (forall n, In n (e_allow p) <-> In n (e_allow p')) ->
+    decide parse_ip resolve p s = decide parse_ip resolve p' s.
+Proof. exact decide_order_irrelevant. Qed.
+Print Assumptions C19_entry_position_irrelevant.
+
+(* without an allowlist, writing more patterns or blocklist subnets never admits a covert that was refused *)
+Theorem C19_more_entries_refuse_more :
+  forall parse_ip resolve p p' s,
+    (forall x, In x (e_domains p) -> In x (e_domains p')) ->
+    (forall n, In n (e_block p) -> In n (e_block p')) ->
+    e_allow p = [] -> e_allow p' = [] ->
+    decide parse_ip resolve p' s = true -> decide parse_ip resolve p s = true.
+Proof. exact more_entries_refuse_more. Qed.
+Print Assumptions C19_more_entries_refuse_more.
